@@ -935,6 +935,7 @@ double approx(SymReal x) {
   const Poly& p = P(x);
   mpq_class c; if (p_is_rational(p, &c)) return c.get_d();
   if (p_is_const(p)) {
+    { mpf_class v(0, 512); if (eval_const(p, v)) return v.get_d(); }
     // evaluate radicals numerically
     double s = 0;
     for (auto& kv : p) { double t = kv.second.get_d(); for (Var v : kv.first) {
@@ -1241,6 +1242,11 @@ bool is_rational(Real t, mpq_class* out) { return p_is_rational(P(t), out); }
 bool mentions_symbols(Real t) { return !p_is_const(P(t)); }
 std::string show(Real t) { return p_show(P(t)); }
 f64 numeric(Real t) { return approx(t); }
+f64 numeric0(Real t) {
+  const Poly& p = P(t); Poly q;
+  for (auto& kv : p) { bool cst = true; for (Var v : kv.first) { Poly one = p_var(v); if (!p_is_const(one)) { cst = false; break; } } if (cst) q[kv.first] = kv.second; }
+  return approx(mk(std::move(q)));
+}
 
 // ---------------------------------------------------------------------------------------
 // exploration driver
